@@ -1,0 +1,14 @@
+//go:build verif
+
+// Accessors for the configuration-plumbing checks. Add-only; nothing here changes behaviour.
+
+package udpip
+
+import (
+	"github.com/scionproto/scion/router"
+)
+
+// VerifNewProvider is the constructor that this package registers for the "udpip" underlay.
+func VerifNewProvider(batchSize, receiveBufferSize, sendBufferSize int) router.UnderlayProvider {
+	return newProvider(batchSize, receiveBufferSize, sendBufferSize)
+}
